@@ -384,6 +384,8 @@ func genCases(c *hx.Ctx, b baseImage) []string {
 			}
 		}
 	}
+	// 1b. crafted multi-byte cases (crafted.go): always run, like the declared-field cases
+	lines = append(lines, craftedCases(c, b)...)
 	nStatic := len(lines)
 	// 2. every traced metadata byte x byte-level and aligned multi-byte boundary values
 	pos := tracedPositions(b, hx.NewRng(777))
@@ -417,7 +419,7 @@ func genCases(c *hx.Ctx, b baseImage) []string {
 	c.StatN("cases-enumerated/"+b.name, nStatic+len(traced))
 	// quick: all declared-field cases plus a seed-rotated slice of the traced ones; thorough: everything
 	// the regime bases (bases2.go) are several times larger than the first nine: quick takes a thinner
-	// slice of their traced cases, thorough a seed-rotated 20 000 instead of all of them
+	// slice of their traced cases, thorough a seed-rotated 8 000 instead of all of them
 	budget := 700
 	if b.extra {
 		budget = 400
@@ -426,7 +428,7 @@ func genCases(c *hx.Ctx, b baseImage) []string {
 		budget = b.quickBudget
 	}
 	if c.Thorough() && b.extra {
-		budget = 20000
+		budget = 8000
 	}
 	if !c.Thorough() || b.extra {
 		if len(traced) > budget {
